@@ -426,6 +426,34 @@ def loop_var_bound(sym, e):
     return None
 
 
+def upvar_expr(prog, g, idx, depth=0):
+    """the value closure g captures as its idx-th upvar, as an expression of the outermost
+    enclosing function (through nested closures); None when not resolved"""
+    parent = prog.fns.get(g.d.get("parent"))
+    if parent is None or depth > 4:
+        return None
+    ps = Sym(parent)
+    for b, blk in enumerate(parent.blocks):
+        if blk["c"]:
+            continue
+        for j, st in enumerate(blk["s"]):
+            if st[0] == "a" and st[2][0] == "agg" and st[2][1] == "closure" and st[2][2] == g.id:
+                ops = st[2][4]
+                if idx >= len(ops):
+                    return None
+                e = ps.operand(ops[idx], (b, j))
+                for _ in range(6):
+                    if e[0] in ("ref", "deref"):
+                        e = e[1]
+                    else:
+                        break
+                if parent.kind == "closure" and e[0] == "field" and e[1][0] == "param" and e[1][1] == 1 \
+                        and isinstance(e[2], int):
+                    return upvar_expr(prog, parent, e[2], depth + 1)
+                return e
+    return None
+
+
 def ordered_only(ctx, fn, facts, a, b, freedom, is_state, tr=None):
     """a concrete assignment of the caller-controlled values (arguments, getters on them, the
     state of `self`) that satisfies every guard connected with the two factors and makes the
@@ -433,17 +461,79 @@ def ordered_only(ctx, fn, facts, a, b, freedom, is_state, tr=None):
     expressions themselves. Only guards built from comparisons, +, - and small constants are
     evaluated; anything else gives up (None)."""
     import itertools
-    if not freedom.free.get(fn.id):
-        return None
     tr = tr or (0, 2 ** 32 - 1)
     sym = ctx.sym
     var = {}            # atom -> (lo, hi) domain
 
+    root = fn
+    while root is not None and root.kind == "closure":
+        root = ctx.prog.fns.get(root.d.get("parent"))
+    if root is None or not freedom.free.get(root.id):
+        return None
+
     def is_var(x):
-        return freedom.is_free_atom(fn, x) or is_state(x)
+        if freedom.is_free_atom(fn, x) or is_state(x):
+            return True
+        if fn.kind == "closure" and x[0] == "field" and x[1][0] == "param" and x[1][1] == 1 \
+                and isinstance(x[2], int):
+            # a captured value: what it holds in the enclosing function
+            r = upvar_expr(ctx.prog, fn, x[2])
+            if r is None:
+                return False
+            while r[0] == "cast":
+                r = r[2]
+            if freedom.is_free_atom(root, r):
+                return True
+            if r[0] == "field" and r[1][0] == "param" and root.local_name(r[1][1]) == "self":
+                return True
+            if r[0] == "call" and r[1] in GETTER_RANGES and r[2] and r[2][0][0] == "param" \
+                    and root.local_name(r[2][0][1]) == "self":
+                return True
+        return False
+
+    root_ctx = []
+
+    def field_range(f_, e):
+        """type range of a field of a parameter of f_ (from the struct definition)"""
+        if not (e[0] == "field" and e[1][0] == "param"):
+            return None
+        ty = (f_.local_ty(e[1][1]) or "").lstrip("&").replace("mut ", "").strip()
+        head = ty.split("<", 1)[0]
+        for k, adt in ctx.prog.adts.items():
+            if adt["name"] == head or k.endswith("::" + head) or head.endswith(adt["name"]):
+                for v in adt["variants"]:
+                    for fl in v["fields"]:
+                        if fl[0] == e[2]:
+                            return type_range(str(fl[1]), ctx.prog.config["ptr_bits"])
+        return None
 
     def dom_of(x):
         r = None
+        if fn.kind == "closure" and x[0] == "field" and x[1][0] == "param" and x[1][1] == 1 \
+                and isinstance(x[2], int):
+            # the range of what the closure captured, evaluated in the enclosing function
+            e = upvar_expr(ctx.prog, fn, x[2])
+            if e is not None:
+                if not root_ctx:
+                    root_ctx.append(Ctx(ctx.prog, root, ctx.iv.param_info))
+                try:
+                    r = root_ctx[0].iv.eval(e)
+                except Exception:
+                    r = None
+                inner = e
+                while inner[0] == "cast":
+                    if inner[1] == "FloatToInt":
+                        break
+                    inner = inner[2]
+                r2 = type_range(inner[3], ctx.prog.config["ptr_bits"]) if inner[0] == "cast" \
+                    else field_range(root, inner)
+                if r is None:
+                    r = r2
+                elif r2 is not None:
+                    r = (max(r[0], r2[0]), min(r[1], r2[1]))
+                if r is None:
+                    return None
+                return (max(r[0], 0), r[1])
         try:
             r = ctx.iv.eval(x)
         except Exception:
@@ -470,8 +560,20 @@ def ordered_only(ctx, fn, facts, a, b, freedom, is_state, tr=None):
         if s[0] == "ovf":
             return collect(s[1])
         if is_var(s):
-            var.setdefault(s, dom_of(s))
+            d_ = dom_of(s)
+            if d_ is None:
+                return False
+            var.setdefault(s, d_)
             return True
+        if s[0] == "cast" and s[1] in ("FloatToInt",) and len(s) > 3 and is_var(strip_widen(s[2])):
+            # a float variable truncated to an integer type: any value of that type
+            r_ = type_range(s[3], ctx.prog.config["ptr_bits"])
+            if r_:
+                # floats of this layer are positions inside an image, whose dimensions are u32:
+                # the truncated value is taken from [0, 2^32) only (a smaller domain can only lose
+                # witnesses, never invent one)
+                var.setdefault(s, (max(r_[0], 0), min(r_[1], 2 ** 32 - 1)))
+                return True
         return False
 
     def ev(e, env):
